@@ -11,7 +11,7 @@ from fractions import Fraction
 import numpy as np
 from common import *
 
-IMPORTS = ("From CV Require Import Base.Cmp Base.QcLin Model.C13_Geom Model.C13_Float Model.C13_Eq.\n"
+IMPORTS = ("From CV Require Import Base.Cmp Base.QcLin Model.C13_Geom Model.C13_Float Model.C13_Eq Model.C13_Fixed.\n"
            "From Coq Require Import QArith Qcanon PrimFloat.")
 RULE = ("explicit lattice: geometry class (Continuous1D, Discrete, default 1D/2D, Continuous2D, Image2D C/F/visual_only, "
         "MappedGeometry with/without imap over five inner classes, KLExpansion N x num_modes x decay x normalizer, StepExpansion "
@@ -59,6 +59,48 @@ def hexgrid(grid):
 
 def grid_of(desc):
     return np.array([float.fromhex(h) for h in desc["grid"]])
+
+
+_SQ_FIXED = None
+_IM_FIXED = None
+
+
+def sq_fixed():
+    """is fixes/C13_squeeze_batch_axis.diff in the tree?  (behavioural probe at the six sites; a tree that repairs only some of
+    them counts as unrepaired and the deviating sites are reported)"""
+    global _SQ_FIXED
+    if _SQ_FIXED is None:
+        import cuqi.geometry as G
+        with warnings.catch_warnings():
+            warnings.simplefilter("ignore")
+            try:
+                ok = [G.Continuous2D((1, 3)).par2fun(np.ones(3)).shape == (1, 3),
+                      G.Continuous2D((1, 1)).fun2par(np.ones((1, 1))).shape == (1,),
+                      G.KLExpansion(np.linspace(0, 1, 1)).par2fun(np.ones(1)).shape == (1,),
+                      G.KLExpansion(np.linspace(0, 1, 3), num_modes=1).fun2par(np.ones(3)).shape == (1,),
+                      G.StepExpansion(np.linspace(0, 1, 4), n_steps=1).fun2par(np.ones(4)).shape == (1,),
+                      G.StepExpansion(np.linspace(0, 1, 4), n_steps=1).par2fun(np.ones((1, 3))).shape == (4, 3)]
+            except Exception:
+                ok = [False]
+        _SQ_FIXED = all(ok)
+    return _SQ_FIXED
+
+
+def im_fixed():
+    """is fixes/C13_image2d_fun2par_batch.diff in the tree?"""
+    global _IM_FIXED
+    if _IM_FIXED is None:
+        import cuqi.geometry as G
+        try:
+            _IM_FIXED = G.Image2D((2, 3)).fun2par(np.zeros((2, 3, 2))).shape == (6, 2)
+        except Exception:
+            _IM_FIXED = False
+    return _IM_FIXED
+
+
+def FL(sq=True, im=True):
+    """the repair flags of the tree as Coq booleans (arguments of the check_*_m functions of Model/C13_Fixed.v)"""
+    return " ".join(([cbool(sq_fixed())] if sq else []) + ([cbool(im_fixed())] if im else []))
 
 
 _STEP_FIXED = None
@@ -564,14 +606,14 @@ def map_case(d, mapname, x, form):
     k, _ = split_cols(x, in_base_of(d, mapname))
     if innermost(d)["kind"] == "step" and mapname == "fun2par" and d["kind"] == "step":
         obs = "None" if y is None else "(Some %s)" % carr(y, coqc_opt)
-        expr = "check_step_fun2par %s %s %s %s %s" % (
-            cnat(len(d["grid"])), step_idx_term(d), {"mean": "PMean", "max": "PMax", "min": "PMin"}[d["proj"]], carr(x), obs)
+        expr = "check_step_fun2par_m %s %s %s %s %s %s" % (
+            FL(im=False), cnat(len(d["grid"])), step_idx_term(d), {"mean": "PMean", "max": "PMax", "min": "PMin"}[d["proj"]], carr(x), obs)
     else:
         if y is not None and np.isnan(y).any():
             obs = "None"       # mapped-over-step with NaN: the Qc-valued model refuses; kept out of the generator
         else:
             obs = copt(y, carr)
-        expr = "check_map %s %s %s %s %s" % (cbool(is_exact(d) and not (innermost(d)["kind"] == "step" and mapname == "fun2par")),
+        expr = "check_map_m %s %s %s %s %s %s" % (FL(), cbool(is_exact(d) and not (innermost(d)["kind"] == "step" and mapname == "fun2par")),
                                              MAPCOQ[mapname], enc_geom(d), carr(x), obs)
     fail = prop_check_map(d, g, mapname, x, y)
     site = mapname
@@ -624,7 +666,7 @@ def shape_case(d):
     fun, fundim, fv = tr(lambda: g.fun_shape), tr(lambda: g.fun_dim), tr(lambda: g.funvec_shape)
     fun = None if fun is None else tuple(int(v) for v in fun)
     fv = None if fv is None else tuple(int(v) for v in fv)
-    expr = "check_shapes %s %s %s %s %s %s" % (enc_geom(d), cnatl(par), cnat(pardim), copt(fun, cnatl), copt(None if fundim is None else int(fundim), cnat), copt(fv, cnatl))
+    expr = "check_shapes_m %s %s %s %s %s %s %s" % (FL(), enc_geom(d), cnatl(par), cnat(pardim), copt(fun, cnatl), copt(None if fundim is None else int(fundim), cnat), copt(fv, cnatl))
     fail = None
     if innermost(d)["kind"] == "kl" and doc_par_shape(d)[0] == 0:
         pass
@@ -655,7 +697,7 @@ def kl_regrid_case(d_old, d_new, mapname, x):
     x = np.array(x, dtype=float)
     y = call(g, mapname, x)
     fresh = call(build_geom(d_new), mapname, x)
-    expr = "check_map false %s %s %s %s" % (MAPCOQ[mapname], enc_geom(d_new), carr(x), copt(y, carr))
+    expr = "check_map_m %s false %s %s %s %s" % (FL(), MAPCOQ[mapname], enc_geom(d_new), carr(x), copt(y, carr))
     fail = None
     if (y is None) != (fresh is None) or (y is not None and not same(y, fresh, False)):
         fail = "after replacing the grid of a used KLExpansion, %s differs from a geometry built on the new grid: %s vs %s" % (
@@ -743,7 +785,7 @@ def samples_case(d, arr, is_par, is_vec, ops):
             obs = None
     enc_s = lambda o: "(mkS %s %s %s)" % (carr(o[0]), cbool(o[1]), cbool(o[2]))
     exact = is_exact(d) and innermost(d)["kind"] != "step"
-    expr = "check_samples %s %s %s %s %s" % (cbool(exact), clist([SOPS[o] for o in ops]), enc_geom(d), enc_s((arr, is_par, is_vec)), copt(obs, enc_s))
+    expr = "check_samples_m %s %s %s %s %s %s" % (FL(), cbool(exact), clist([SOPS[o] for o in ops]), enc_geom(d), enc_s((arr, is_par, is_vec)), copt(obs, enc_s))
     # ---- property: lossless and consistent with the per-sample maps
     fail = None
     vec_undefined = innermost(d)["kind"] == "cont2d"
@@ -801,7 +843,7 @@ def cuqiarray_case(d, x, is_par, to_par):
             obs, same_geom, back = None, True, None
     exact = is_exact(d) and innermost(d)["kind"] != "step"
     enc_o = lambda o: "(%s, %s)" % (carr(o[0]), cbool(o[1]))
-    expr = "check_cuqiarray %s %s %s %s %s %s && %s" % (cbool(exact), cbool(to_par), enc_geom(d), carr(x), cbool(is_par), copt(obs, enc_o), cbool(same_geom))
+    expr = "check_cuqiarray_m %s %s %s %s %s %s %s && %s" % (FL(), cbool(exact), cbool(to_par), enc_geom(d), carr(x), cbool(is_par), copt(obs, enc_o), cbool(same_geom))
     fail = None
     has_inv = all(m.get("imap", True) for m in chain_of(d))
     if is_par and not to_par and x.shape == tuple(doc_par_shape(d)):
@@ -1151,9 +1193,11 @@ def spread(cases):
 
 
 def run(ctx):
-    global _STEP_FIXED, _EQ_STRICT
+    global _STEP_FIXED, _EQ_STRICT, _SQ_FIXED, _IM_FIXED
     _STEP_FIXED = None
     _EQ_STRICT = None
+    _SQ_FIXED = None
+    _IM_FIXED = None
     import cuqi
     rng = ctx.rng
     cases = []
@@ -1255,6 +1299,7 @@ def run(ctx):
         cases.append(cuqiarray_case(d, rand_arr(rng, tuple(fs) + (2,)), False, True))
     ctx.note("StepExpansion.__init__ in this tree: %s" % ("node-number partition (repaired: fixes/C13_step_partition_minimal.diff or C13_step_partition.diff)" if step_fixed()
                                                          else "interval tests on float coordinates (unrepaired)"))
+    ctx.note("repairs in this tree: squeeze->batch axis only: %s; Image2D.fun2par keeps the batch axis: %s" % (sq_fixed(), im_fixed()))
     cases += eq_cases(ctx, geoms)
     cases = spread(cases)
     return Result(cases=cases, rule=RULE,
